@@ -81,7 +81,7 @@ def run(chk, build):
         keys = None
         if i % 4 == 0:
             # keys with line-separator-like characters, quotes and non-ASCII letters: the nested layout re-indents class text
-            keys = ["a", "b", "c", "na\u2028me", "li\x85ne", "q\"uote", "t\tab", "été", "x\u2029y", "id"]
+            keys = ["a", "b", "c", "na\u2028me", "li\x85ne", "q\"uote", "t\tab", "été", "x\u2029y", "id", "list", "1st"]     # the last three: class names that change when converted
         g = gen.Gen(g0.r.randrange(10 ** 9), keys=keys)
         s = g.family() if i % 5 == 2 else g.samples(depth=4 if i % 2 else 3)
         o = {"fw": g0.r.choice(pipeline.FRAMEWORKS), "cmp": g0.r.choice([None, None, [("exact",)], [("percent", 0.5)], [("number", 2)], [("number", 1)], [("number", 10)], [("number", 10)]]),
